@@ -21,7 +21,8 @@ import (
 )
 
 type wtCase struct {
-	Events  []string `json:"events"`
+	Events    []string `json:"events"`
+	StopAfter int      `json:"consumer_stops_after"` // the consumer calls Stop() (twice) after this many events and keeps draining; -1: never
 	Failure string   `json:"failure,omitempty"`
 	Got     []string `json:"got,omitempty"`
 }
@@ -57,6 +58,9 @@ func wtJudge(c *wtCase) (msg string) {
 		w.receive()
 	}()
 	for i := range c.Events {
+		if i == c.StopAfter {
+			return wtStopEarly(c, w, crashed, i)
+		}
 		select {
 		case ev, ok := <-w.ResultChan():
 			if !ok {
@@ -77,6 +81,9 @@ func wtJudge(c *wtCase) (msg string) {
 				}
 			}
 		case p := <-crashed:
+			if p == "" {
+				return fmt.Sprintf("the relay ended before event %d (%s) was delivered although the source had not ended", i, c.Events[i])
+			}
 			return fmt.Sprintf("relay goroutine ended with panic %q at event %d (%s): the process would crash", p, i, c.Events[i])
 		case <-time.After(2 * time.Second):
 			return fmt.Sprintf("event %d never arrived", i)
@@ -101,6 +108,58 @@ func wtJudge(c *wtCase) (msg string) {
 	return ""
 }
 
+// wtStopEarly: the consumer has read `got` events and stops the watch while the source still holds events (the relay
+// is by then blocked handing over the next one).  It calls Stop twice and keeps draining, as a well-behaved consumer
+// may; the relay must end without a panic, the channel must be closed, and what arrives before the close must
+// continue the source's sequence.
+func wtStopEarly(c *wtCase, w *hijackWatch, crashed chan string, got int) (msg string) {
+	time.Sleep(20 * time.Millisecond) // let the relay take the next event and block on the hand-over
+	stopPanic := ""
+	func() {
+		defer func() {
+			if r := recover(); r != nil {
+				stopPanic = fmt.Sprint(r)
+			}
+		}()
+		w.Stop()
+		w.Stop()
+	}()
+	if stopPanic != "" {
+		return "Stop() panicked: " + stopPanic
+	}
+	closed := false
+	for n := got; !closed; n++ {
+		select {
+		case ev, ok := <-w.ResultChan():
+			if !ok {
+				closed = true
+				break
+			}
+			c.Got = append(c.Got, string(ev.Type))
+			if n >= len(c.Events) || string(ev.Type) != c.Events[n] {
+				return fmt.Sprintf("after Stop() event %d of type %s arrived, which is not the source's next event", n, ev.Type)
+			}
+		case p := <-crashed:
+			if p != "" {
+				return fmt.Sprintf("relay goroutine ended with panic %q after the consumer called Stop() with an event in flight: the process would crash", p)
+			}
+			crashed <- p
+			time.Sleep(time.Millisecond)
+		case <-time.After(2 * time.Second):
+			return "result channel not closed after Stop()"
+		}
+	}
+	select {
+	case p := <-crashed:
+		if p != "" {
+			return "relay goroutine panicked on shutdown after Stop(): " + p
+		}
+	case <-time.After(2 * time.Second):
+		return "relay goroutine still running after Stop() and a drained channel"
+	}
+	return ""
+}
+
 func TestReplayWatch(t *testing.T) {
 	kinds := []string{"ADDED", "MODIFIED", "DELETED", "BOOKMARK", "ERROR"}
 	var seqs [][]string
@@ -120,8 +179,12 @@ func TestReplayWatch(t *testing.T) {
 		if found >= 3 {
 			break
 		}
-		c := &wtCase{Events: s}
+		c := &wtCase{Events: s, StopAfter: -1}
 		msg := wtJudge(c)
+		for k := 0; msg == "" && k < len(s); k++ {
+			c = &wtCase{Events: s, StopAfter: k}
+			msg = wtJudge(c)
+		}
 		key := msg
 		if len(key) > 28 {
 			key = key[:28]
@@ -136,6 +199,6 @@ func TestReplayWatch(t *testing.T) {
 		found++
 	}
 	if found == 0 {
-		fmt.Printf("NOT-REPRODUCED bounded search: %d event sequences of length <= 3 over {ADDED, MODIFIED, DELETED, BOOKMARK, ERROR} through the real relay\n", len(seqs))
+		fmt.Printf("NOT-REPRODUCED bounded search: %d event sequences of length <= 3 over {ADDED, MODIFIED, DELETED, BOOKMARK, ERROR} through the real relay, each also with the consumer stopping after every proper prefix\n", len(seqs))
 	}
 }
